@@ -29,7 +29,8 @@ RULE = ("random construction programs over <= 8 blocks (1..3 Inputs, 1..5 CBlock
         "size 0..3; Event / IfOutput / IfNotIitialized / DataEdit.add_output references by name and by object; "
         "then finalize() and/or the real start, second finalize, frozen-circuit operations, repair-and-retry "
         "after a failed finalize; 35 % of the programs contain one class of invalid use (unknown name, "
-        "foreign block, UNDEF, bad automatic name, inverter of an unknown block, empty name, duplicate / "
+        "foreign block (a block object kept from the circuit before reset_circuit(), with a name that does / "
+        "does not exist in the current circuit; as single input, group member, input of a Not), UNDEF, bad automatic name, inverter of an unknown block, empty name, duplicate / "
         "reserved / empty block name, connect twice / nothing / '_' / sequence as positional input, wrong "
         "destination kind by object or by name, wrong or missing inputs of Not / Override); custom blocks "
         "calling check_signature() with expectations None / n / (lo, hi) with open bounds / malformed, "
@@ -50,6 +51,8 @@ ASSUMPTIONS = [
 EXHAUSTIVE = {'quick': False, 'thorough': False}
 
 UNDEF_TAG = {'u': 1}
+# names used only by blocks of the circuit that existed before reset_circuit(): Input, FuncBlock, Not
+FOREIGN_ONLY = ['olds', 'oldf', 'oldn']
 # block names chosen so that str.lstrip/strip with the character set of '_not_', a wrong prefix length
 # or a substring search instead of removeprefix('_not_') picks another existing block or nothing
 NAME_FAMILIES = [
@@ -94,6 +97,7 @@ def _gen_ref(rng, st, allow_multi=False):
 BAD_REFS = {
     'unknown_name': lambda rng, st: ['n', rng.choice(['zz', 's9', 'c9', 'ctrl', 'not_s0'])],
     'foreign_obj': lambda rng, st: ['x', rng.choice(st['planned'])],
+    'foreign_obj_unknown_name': lambda rng, st: ['x', rng.choice(FOREIGN_ONLY)],
     'undef_value': lambda rng, st: ['v', UNDEF_TAG],
     'bad_auto_name': lambda rng, st: ['n', rng.choice(['_x', '_not__s0', '_not__not_s0', '_ctrl2', '_Not_0', '_'])],
     'not_of_unknown': lambda rng, st: ['n', rng.choice(['_not_zz', '_not_', '_not_ctrl'])],
@@ -540,6 +544,12 @@ class _Run:
             if name and not name.startswith('_') and name not in self.foreign:
                 self.foreign[name] = (edzed.Input(name, initdef=0) if op[0] == 's'
                                       else edzed.FuncBlock(name, func=_anyfunc))
+        # ... and blocks whose names the current circuit will never have
+        for name in FOREIGN_ONLY:
+            if name not in self.foreign:
+                self.foreign[name] = (edzed.Input(name, initdef=0) if name.endswith('s') else
+                                      edzed.Not(name).connect(FOREIGN_ONLY[0]) if name.endswith('n')
+                                      else edzed.FuncBlock(name, func=_anyfunc))
         edzed.reset_circuit()
         self.circuit = edzed.get_circuit()
         self.blocks = {}        # objects created by the scenario, by name
@@ -613,7 +623,10 @@ class _Run:
         pd = c.persistent_dict
         self.emit('pd', 'n' if pd is None else str(next(k for k, d in self.dicts.items() if d is pd)))
         self.emit('blocks', ','.join('.' + b.name for b in blks) or '-')
-        snap = {'finalized': c.is_finalized(), 'blocks': [], 'slots': [], 'pd': None if pd is None else id(pd)}
+        snap = {'finalized': c.is_finalized(), 'blocks': [], 'slots': [], 'pd': None if pd is None else id(pd),
+                'foreign_touched': sorted(n for n, f in self.foreign.items() if f.oconnections)}
+        self.emit('foreign ' + (','.join('.' + n for n in sorted(self.foreign)) or '-'),
+                  ','.join('.' + n for n in snap['foreign_touched']) or '-')
         for blk in sorted(blks, key=lambda b: b.name):
             iscb = isinstance(blk, edzed.CBlock)
             ic = blk.iconnections if iscb else ()
@@ -1122,6 +1135,17 @@ def _check_snapshot(scn, snap, specs, created, bad, pre_slots):
         for x in a['oc']:
             if x not in byid:
                 bad('wiring_biconditional', f"{a['name']}.oconnections holds a block that is not in the circuit")
+        for x in a['ic']:
+            if x not in byid:
+                bad('refs_resolved', f"{a['name']}.iconnections holds a block that is not in the circuit",
+                    shape='foreign_block')
+        for r in _flat(a['inputs'] or []):
+            if r[0] == 'block' and not r[3]:
+                bad('bad_refs_fail', f"{a['name']}.inputs holds the block {r[2]!r} of another circuit "
+                    "in a finalized circuit", shape='foreign_block')
+    if snap.get('foreign_touched'):
+        bad('bad_refs_fail', f"oconnections of blocks of the OLD circuit were modified: {snap['foreign_touched']}",
+            shape='foreign_block')
     # 2. every reference given to connect() is resolved to the right object, structure preserved
     inverted = set()
     for bname, spec in specs.items():
